@@ -277,7 +277,9 @@ func stateContextOpenedOnNewline(s *Scanner, c byte) *jerr.JApiError {
 	switch c {
 	case caseWhitespace(c):
 		return nil
-	case caseNewLine(c):
+	case caseNewLine(c), EOF:
+		// the end of the file ends the line too: an included file may end right
+		// after the opening parenthesis (whether it is closed is checked later)
 		s.step = stateExpectKeyword
 		return nil
 	case CommentSign:
